@@ -44,6 +44,7 @@ def run(ck):
     ck.rule("C07.R4", "filter ids are distinct single bits assigned in on_subscribe", floor=4)
     ck.rule("C07.R5", "bitmap typestate: every protocol run ends all-clear and delivers iff accepted", floor=100)
     ck.rule("C07.R5s", "effect summaries extracted from MIR match a recognised shape", floor=9)
+    ck.rule("C07.R8", "a filter below a layer that answers `sometimes` is still told about every callsite (pick_interest asks the inner value; as C09.R5)", floor=1)
     ck.rule("C07.R7", "Vec<S> / a Layered tree claim to be per-layer-filtered only if every part is", floor=2)
     ck.rule("C07.R6", "per-layer filter combinators (And/Or/Not/Option) publish sound interests and level hints (as C08.R1/R2)", floor=10)
     r1(ck, F)
@@ -59,6 +60,8 @@ def run(ck):
     C08.r2(ck, F, rid="C07.R6")
     C08.r3(ck, F, rid="C07.R6")
     r7(ck, F)
+    from rules import C09
+    C09.check_pick_interest(ck, F, rid="C07.R8")
 
 
 # ------------------------------------------------------------------ R1
